@@ -43,6 +43,8 @@ extern "C" int LLVMFuzzerTestOneInput(const uint8_t *data, size_t size) {
       if (!E2.accepted || E2.seq != E.seq) vvf::violation(("range '" + rest + "' print->parse differs").c_str());
     } else if (R.kind == RefRange::MUST_REJECT && E.accepted) {
       vvf::violation(("malformed range '" + rest + "' accepted").c_str());
+    } else if (R.kind == RefRange::WRONG_DIRECTION && E.accepted && E.seq != R.seq) {
+      vvf::violation(("range '" + rest + "' with a stride pointing away from its end enumerates " + show(E.seq)).c_str());
     }
   }
   return 0;
